@@ -401,4 +401,247 @@ theorem validCloseCode_eq (c : UInt16) : ValidCloseCode c = Sonic.Spec.WsStream.
     by_cases h11 : n = 1011 <;> by_cases h12 : n = 1012 <;> by_cases h13 : n = 1013 <;> first | omega | skip
   all_goals simp [*]
 
+/-! ### Writer side: the pooled frame of `Model.WsEncode` is the same representation -/
+
+open Sonic.Model.WsEncode (PFrame)
+
+/-- A model frame as a slice value. -/
+def toB (f : PFrame) : Go.Bytes := { arr := f.arr, len := f.len }
+
+@[simp] theorem toB_toList (f : PFrame) : (toB f).toList = f.bytes := rfl
+
+/-- `f[i] = g(f[i])`, as the generated code does it (read, then write) and as the model does it. -/
+theorem modify_eq (f : PFrame) (i : Nat) (g : UInt8 → UInt8) :
+    lift (Go.Bytes.idx (toB f) (i : Int) >>= fun x => Go.Bytes.set (toB f) (i : Int) (g x)) = toB <$> f.modify i g := by
+  unfold Go.Bytes.idx Go.Bytes.set PFrame.modify toB
+  by_cases h : i < f.len ∧ i < f.arr.length
+  · have h' : (0 : Int) ≤ (i : Int) ∧ (i : Int).toNat < f.len ∧ (i : Int).toNat < f.arr.length := ⟨by omega, by simpa using h.1, by simpa using h.2⟩
+    simp only [if_pos h', if_pos h]
+    simp [bind, Except.bind, pure, Except.pure, Functor.map, Except.map]
+  · have h' : ¬ ((0 : Int) ≤ (i : Int) ∧ (i : Int).toNat < f.len ∧ (i : Int).toNat < f.arr.length) := by
+      intro hh; exact h ⟨by simpa using hh.2.1, by simpa using hh.2.2⟩
+    simp only [if_neg h', if_neg h]
+    rfl
+
+theorem modify0_eq (f : PFrame) (g : UInt8 → UInt8) :
+    lift (Go.Bytes.idx (toB f) (0 : Int) >>= fun x => Go.Bytes.set (toB f) (0 : Int) (g x)) = toB <$> f.modify 0 g :=
+  modify_eq f 0 g
+
+theorem modify1_eq (f : PFrame) (g : UInt8 → UInt8) :
+    lift (Go.Bytes.idx (toB f) (1 : Int) >>= fun x => Go.Bytes.set (toB f) (1 : Int) (g x)) = toB <$> f.modify 1 g :=
+  modify_eq f 1 g
+
+theorem bind_pure_self {α : Type} (r : Except Go.Panic α) : (r >>= fun a => pure a) = r := by
+  cases r <;> rfl
+
+theorem setFIN_eq (f : PFrame) : lift (Frame.SetFIN (toB f)) = toB <$> f.SetFIN := by
+  have h := modify0_eq f (· ||| 0x80)
+  unfold Frame.SetFIN PFrame.SetFIN
+  simpa [bitFIN, bind_assoc, bind_pure_self] using h
+
+theorem setRSV1_eq (f : PFrame) : lift (Frame.SetRSV1 (toB f)) = toB <$> f.SetRSV1 := by
+  have h := modify0_eq f (· ||| 0x40)
+  unfold Frame.SetRSV1 PFrame.SetRSV1
+  simpa [bitRSV1, bind_assoc, bind_pure_self] using h
+
+theorem setRSV2_eq (f : PFrame) : lift (Frame.SetRSV2 (toB f)) = toB <$> f.SetRSV2 := by
+  have h := modify0_eq f (· ||| 0x20)
+  unfold Frame.SetRSV2 PFrame.SetRSV2
+  simpa [bitRSV2, bind_assoc, bind_pure_self] using h
+
+theorem setRSV3_eq (f : PFrame) : lift (Frame.SetRSV3 (toB f)) = toB <$> f.SetRSV3 := by
+  have h := modify0_eq f (· ||| 0x10)
+  unfold Frame.SetRSV3 PFrame.SetRSV3
+  simpa [bitRSV3, bind_assoc, bind_pure_self] using h
+
+theorem setIsMasked_eq (f : PFrame) : lift (Frame.SetIsMasked (toB f)) = toB <$> f.SetIsMasked := by
+  have h := modify1_eq f (· ||| 0x80)
+  unfold Frame.SetIsMasked PFrame.SetIsMasked
+  simpa [bitIsMasked, bind_assoc, bind_pure_self] using h
+
+/-- `lift_bind` where the continuation may use that the first step succeeded. -/
+theorem lift_bind' {α β α' β' : Type} (r : Except Go.Panic α) (r' : M α') (k : α → Except Go.Panic β) (k' : α' → M β')
+    (g : α' → α) (h : β' → β) (hr : lift r = g <$> r') (hk : ∀ a', r' = .ok a' → lift (k (g a')) = h <$> k' a') :
+    lift (r >>= k) = h <$> (r' >>= k') := by
+  cases r' with
+  | error e =>
+    cases r with
+    | error e0 => simp [lift, Functor.map, Except.map, bind, Except.bind] at hr ⊢; exact hr
+    | ok a => simp [lift, Functor.map, Except.map] at hr
+  | ok a' =>
+    cases r with
+    | error e0 => simp [lift, Functor.map, Except.map] at hr
+    | ok a =>
+      simp [lift, Functor.map, Except.map] at hr
+      subst hr
+      simpa [bind, Except.bind] using hk a' rfl
+
+theorem modify_ok {f f2 : PFrame} {i : Nat} {g : UInt8 → UInt8} (h : f.modify i g = .ok f2) :
+    f2.len = f.len ∧ f2.arr.length = f.arr.length ∧ i < f.len := by
+  unfold PFrame.modify at h
+  by_cases hc : i < f.len ∧ i < f.arr.length
+  · rw [if_pos hc] at h
+    cases h
+    exact ⟨rfl, by simp, hc.1⟩
+  · rw [if_neg hc] at h; cases h
+
+theorem clearOpcode_eq (f : PFrame) : lift (Frame.clearOpcode (toB f)) = toB <$> f.modify 0 (· &&& 0xf0) := by
+  have h := modify0_eq f (· &&& 0xf0)
+  unfold Frame.clearOpcode
+  simpa [bind_assoc, bind_pure_self] using h
+
+theorem setOpcode_eq (f : PFrame) (c : UInt8) : lift (Frame.SetOpcode (toB f) c) = toB <$> f.SetOpcode c := by
+  unfold Frame.SetOpcode PFrame.SetOpcode
+  refine lift_bind _ _ _ _ toB toB (clearOpcode_eq f) (fun f2 => ?_)
+  have h := modify0_eq f2 (· ||| (c &&& 0x0f))
+  simpa [bind_assoc, bind_pure_self] using h
+
+/-! ### `util.ExtendSlice` and `setPayloadLength` -/
+
+theorem beBytes_eq : ∀ (k n : Nat), Go.beBytes k n = Sonic.Spec.WsFrame.beBytes k n
+  | 0, _ => rfl
+  | k + 1, n => by unfold Go.beBytes Sonic.Spec.WsFrame.beBytes; rw [beBytes_eq k n]
+
+theorem beBytes_length : ∀ (k n : Nat), (Go.beBytes k n).length = k
+  | 0, _ => rfl
+  | k + 1, n => by unfold Go.beBytes; simp [beBytes_length k n]
+
+/-- `ExtendSlice(f, need)` re-slices to the capacity, appends zeros if that is not enough, and cuts to `need`: the
+model's `extend` (a slice holds fewer than 2^63 elements). -/
+theorem extendSlice_eq (f : PFrame) (need : Nat) (hc : (f.arr.length : Int) ≤ Go.I64MAX) (hn : (need : Int) ≤ Go.I64MAX) :
+    ExtendSlice (toB f) need = .ok (toB (f.extend need)) := by
+  unfold ExtendSlice
+  have hs : Go.Bytes.slice (toB f) none (some (Go.Bytes.cap (toB f))) = .ok ⟨f.arr, f.arr.length⟩ := by
+    unfold Go.Bytes.slice Go.Bytes.cap toB
+    simp only [Option.getD_some, Option.getD_none]
+    rw [if_pos ⟨by omega, by omega, by omega⟩]
+    simp [pure, Except.pure]
+  rw [hs]
+  simp only [bind, Except.bind, pure, Except.pure]
+  have hcap : Go.Bytes.cap ⟨f.arr, f.arr.length⟩ = (f.arr.length : Int) := rfl
+  rw [hcap]
+  have hsub : Go.sub (need : Int) (f.arr.length : Int) = (need : Int) - f.arr.length := by
+    apply Go.sub_id; unfold Go.InI64 Go.I64MIN Go.I64MAX; unfold Go.I64MAX at hc hn; omega
+  rw [hsub]
+  unfold PFrame.extend toB
+  by_cases hgt : need > f.arr.length
+  · rw [if_pos (by omega), if_pos hgt]
+    have ha : Go.Bytes.appendZeros ⟨f.arr, f.arr.length⟩ ((need : Int) - f.arr.length) =
+        .ok ⟨f.arr ++ List.replicate (need - f.arr.length) 0, need⟩ := by
+      unfold Go.Bytes.appendZeros
+      rw [if_neg (by omega)]
+      have : ((need : Int) - (f.arr.length : Int)).toNat = need - f.arr.length := by omega
+      simp only [this, pure, Except.pure]
+      congr 2
+      · simp
+      · omega
+    rw [ha]
+    simp only []
+    unfold Go.Bytes.slice
+    simp only [Option.getD_some, Option.getD_none]
+    rw [if_pos ⟨by omega, by omega, by simp; omega⟩]
+    simp [pure, Except.pure]
+  · rw [if_neg (by omega), if_neg hgt]
+    unfold Go.Bytes.slice
+    simp only [Option.getD_some, Option.getD_none]
+    rw [if_pos ⟨by omega, by omega, by omega⟩]
+    simp [pure, Except.pure]
+
+/-- `binary.BigEndian.PutUint<8k>(f[2:], v)` on a frame of at least two bytes. -/
+theorem putBE_eq (f : PFrame) (k v : Nat) (h2 : 2 ≤ f.len) :
+    lift (Go.Bytes.putBEAt (toB f) (2 : Int) k v) = toB <$> f.putBE k v := by
+  unfold Go.Bytes.putBEAt PFrame.putBE PFrame.copyAt toB
+  have e2 : (2 : Int).toNat = 2 := rfl
+  simp only [e2]
+  have hmin : k ≤ f.len - 2 → min (f.len - 2) (Sonic.Spec.WsFrame.beBytes k v).length = k := by
+    intro hk; rw [← beBytes_eq, beBytes_length]; omega
+  have htake : List.take k (Sonic.Spec.WsFrame.beBytes k v) = Sonic.Spec.WsFrame.beBytes k v := by
+    apply List.take_of_length_le; rw [← beBytes_eq, beBytes_length]; exact Nat.le_refl _
+  have c1 : ((0 : Int) ≤ 2 ∧ (2 : Int) ≤ (f.len : Int)) := ⟨by decide, by omega⟩
+  by_cases hk : k ≤ f.len - 2 <;> by_cases hl : f.len ≤ f.arr.length
+  · have c2 : ¬ (f.len - 2 < k) := by omega
+    simp only [c1, c2, hk, hl, h2, not_true, not_false_eq_true, if_true, if_false, and_self, hmin hk, htake, beBytes_eq]
+    rfl
+  · have c2 : ¬ (f.len - 2 < k) := by omega
+    simp only [c1, c2, hk, hl, h2, not_true, not_false_eq_true, if_true, if_false, and_self, and_false, and_true]
+    rfl
+  · have c2 : (f.len - 2 < k) := by omega
+    simp only [c1, c2, hk, hl, h2, not_true, not_false_eq_true, if_true, if_false, and_self, and_false, and_true]
+    rfl
+  · have c2 : (f.len - 2 < k) := by omega
+    simp only [c1, c2, hk, hl, h2, not_true, not_false_eq_true, if_true, if_false, and_self, and_false, and_true]
+    rfl
+
+theorem u64_ofInt (n : Nat) : (UInt64.ofInt (n : Int)).toNat = n % 2 ^ 64 := by
+  unfold UInt64.ofInt; rw [UInt64.toNat_ofNat']; omega
+
+theorem u16_ofInt (n : Nat) (h : n ≤ 65535) : (UInt16.ofInt (n : Int)).toNat = n := by
+  unfold UInt16.ofInt; rw [UInt16.toNat_ofNat']; omega
+
+theorem u8_ofInt (n : Nat) : UInt8.ofInt (n : Int) = UInt8.ofNat n := by
+  rw [← UInt8.toNat_inj]; unfold UInt8.ofInt; rw [UInt8.toNat_ofNat', UInt8.toNat_ofNat']; omega
+
+/-- **`setPayloadLength`**: the generated function is the model's, for every pooled frame (whatever an earlier use left
+in it, however short it was cut) and every length a Go slice can have. -/
+theorem setPayloadLength_eq (f : PFrame) (n : Nat) (hc : (f.arr.length : Int) ≤ Go.I64MAX) :
+    lift (Frame.setPayloadLength (toB f) n) = toB <$> f.setPayloadLength n := by
+  have rest : ∀ f1 : PFrame,
+      lift (do
+        let t ← Go.Bytes.idx (toB f1) (1 : Int)
+        let f ← Go.Bytes.set (toB f1) (1 : Int) (t &&& (128 : UInt8))
+        if ((n : Int) > (65535 : Int)) then
+          let t ← Go.Bytes.idx f (1 : Int)
+          let f ← Go.Bytes.set f (1 : Int) (t ||| (127 : UInt8))
+          let f ← Go.Bytes.putBEAt f (2 : Int) 8 (UInt64.ofInt n).toNat
+          pure f
+        else
+          if ((n : Int) > (125 : Int)) then
+            let t ← Go.Bytes.idx f (1 : Int)
+            let f ← Go.Bytes.set f (1 : Int) (t ||| (126 : UInt8))
+            let f ← Go.Bytes.putBEAt f (2 : Int) 2 (UInt16.ofInt n).toNat
+            pure f
+          else
+            let t ← Go.Bytes.idx f (1 : Int)
+            let f ← Go.Bytes.set f (1 : Int) (t ||| (UInt8.ofInt n))
+            pure f) =
+      toB <$> (do
+        let f ← f1.modify 1 (· &&& 0x80)
+        if n > 65535 then
+          let f ← f.modify 1 (· ||| 127)
+          f.putBE 8 (n % 2 ^ 64)
+        else if n > 125 then
+          let f ← f.modify 1 (· ||| 126)
+          f.putBE 2 n
+        else f.modify 1 (· ||| UInt8.ofNat n)) := by
+    intro f1
+    rw [← bind_assoc]
+    refine lift_bind' _ _ _ _ toB toB (modify1_eq f1 _) (fun f2 hf2 => ?_)
+    by_cases h1 : n > 65535
+    · rw [if_pos (by omega), if_pos h1, ← bind_assoc]
+      refine lift_bind' _ _ _ _ toB toB (modify1_eq f2 _) (fun f3 hf3 => ?_)
+      have := modify_ok hf3
+      rw [u64_ofInt]
+      exact putBE_eq f3 8 _ (by omega)
+    · rw [if_neg (by omega), if_neg h1]
+      by_cases h2 : n > 125
+      · rw [if_pos (by omega), if_pos h2, ← bind_assoc]
+        refine lift_bind' _ _ _ _ toB toB (modify1_eq f2 _) (fun f3 hf3 => ?_)
+        have := modify_ok hf3
+        rw [u16_ofInt n (by omega)]
+        exact putBE_eq f3 2 _ (by omega)
+      · rw [if_neg (by omega), if_neg h2, u8_ofInt]
+        have h := modify1_eq f2 (· ||| UInt8.ofNat n)
+        simpa [bind_assoc, bind_pure_self] using h
+  unfold Frame.setPayloadLength PFrame.setPayloadLength
+  have hlenB : Go.Bytes.length (toB f) = (f.len : Int) := rfl
+  rw [hlenB, show frameMaxHeaderLength = (14 : Int) from rfl, show WsFrame.frameMaxHeaderLength = 14 from rfl]
+  by_cases hlen : f.len < 14
+  · have hE : ExtendSlice (toB f) (14 : Int) = .ok (toB (f.extend 14)) := extendSlice_eq f 14 hc (by unfold Go.I64MAX; omega)
+    rw [if_pos (by omega), hE]
+    simp only [if_pos hlen]
+    exact rest (f.extend 14)
+  · rw [if_neg (by omega)]
+    simp only [if_neg hlen]
+    exact rest f
+
 end Sonic.Lemmas.WsFrameTie
